@@ -30,7 +30,8 @@ ShapeLists ==
       << TblMulti, <<"text", <<Para1>>>> >>,
       << TblEmptyCell >>,
       << TblSpan >>,
-      << <<"text", <<Para1>>>>, <<"text", <<Para1>>>> >> }
+      << <<"text", <<Para1>>>>, <<"text", <<Para1>>>> >>,
+      << <<"title", Para1>>, <<"title", Para1>>, <<"text", <<Para1>>>> >> }     \* comparison layout: two title frames
 Slides == { [shapes |-> s, notes |-> n] : s \in ShapeLists, n \in { <<>>, <<R>> } }
 
 (* sheet = rows of cells; a cell is 1 (token string) or 0 (empty) *)
